@@ -27,6 +27,13 @@ FIXED = [
     "fixed: property=C02 eff7aff members of a nested bundle that is itself a wire merge (`{ pair, more }`) were never wired and disappeared",
     "fixed: property=C02 261848c `(bundle CMP signal) : out` left the scalar on the network `each` iterates over (scalar appears in / alters the filtered bundle)",
     "fixed: property=C02 43c51c8 `(sig CMP c) : bundle` leaked the condition signal into a merged bundle and produced nothing for a one-signal bundle",
+    "fixed: property=C03 b2ac024 `write(v, when=en)` with `en` a declared input whose default is 1 was compiled as an unconditional write: the enable was never converted to the write-enable signal and the cell accumulated",
+    "fixed: property=C05 0c38f95 the inlined (comparison) latch emitted one fixed row order whatever the set=/reset= order, so the priority flag was ignored in the both-active region",
+    "fixed: property=C05 e23b49c the reset-first latch `S > R` (feedback summed into S) stayed ON when reset became active while set was active",
+    "fixed: property=C06 d132cce `enable` on pumps / offshore pumps / power switches was written to an attribute draftsman never exports: the entity was emitted uncontrolled",
+    "fixed: property=C06 aae6e36 a comparison inlined into an entity's condition was removed although a later statement also read it (`Signal f = x > 3; lamp.enable = f; Signal g = f + 1;` left g without a source)",
+    "fixed: property=C10 9b11727 optimiser replacements were not applied to wire-merge sources, latch writes, multi-condition rows, inlined bundle conditions and placement coordinates",
+    "fixed: property=C10 72073fa with optimisation on, a folded anonymous constant consumed by a copy-count decider output, a memory write or a wire merge was inlined as an integer and produced nothing",
     "fixed: property=C01 7701d37 a comparison with an integer literal on the left (`3 < a`) was emitted as `signal-0 < a`",
 ]
 
@@ -71,6 +78,25 @@ add("C02", K1, K1_WHAT, "K1",
           ["sig", "other", ["p", ["b", "+", ["v", "m0"], ["n", 1]], "signal-left-parenthesis"]],
           ["bun", "e2", ["bb", "*", ["B", [["v", "m0"]]], ["n", 3]]]],
          "shared_member_source"))
+
+
+# ---- C04
+add("C04", K1, K1_WHAT, "K1",
+    dict(case([["input", "h0", "signal-left-parenthesis", 4], ["mem", "m0", "processing-unit"],
+               ["sig", "s0_0", ["p", ["b", "+", ["r", "m0"], ["v", "h0"]], "processing-unit"]],
+               ["sig", "s0_1", ["p", ["b", "+", ["v", "s0_0"], ["v", "h0"]], "processing-unit"]],
+               ["write", "m0", ["v", "s0_1"], None],
+               ["sig", "rid0", ["p", ["r", "m0"], "shape-t"]]],
+              "chain", nval=1), meta=[{"mem": "m0", "chain": 2, "ids": ["rid0"]}]))
+
+
+# ---- C10
+add("C10", K1, K1_WHAT + " (either build)", "K1",
+    case([["input", "a", "signal-explosion", 15], ["input", "b", "light-oil", 16],
+          ["sig", "flag", ["c", ">=", ["v", "a"], ["n", 4]]],
+          ["sig", "x", ["p", ["s", ["c", ">=", ["v", "a"], ["n", 4]], ["v", "b"]], "signal-stack-size"]],
+          ["sig", "w", ["p", ["s", ["v", "flag"], ["v", "b"]], "steam"]]],
+         "C01:cond_value", nval=6, edges={"a": [3, 4, 5]}))
 
 
 def main():
